@@ -125,6 +125,35 @@ func extLen(record []byte, id uint16) int {
 	return -1
 }
 
+// withCipher appends one cipher suite value to the hello's list (record, handshake and list
+// lengths adjusted): values crypto/tls clients never send but other stacks do - the
+// renegotiation and fallback signalling values, GREASE, an unknown suite.
+func withCipher(record []byte, cs uint16) []byte {
+	p := 5 + 4 + 2 + 32
+	if p >= len(record) {
+		return nil
+	}
+	p += 1 + int(record[p]) // session id
+	if p+2 > len(record) {
+		return nil
+	}
+	n := int(record[p])<<8 | int(record[p+1])
+	end := p + 2 + n
+	if end > len(record) {
+		return nil
+	}
+	out := append([]byte(nil), record[:end]...)
+	out = append(out, byte(cs>>8), byte(cs))
+	out = append(out, record[end:]...)
+	put16 := func(at, v int) { out[at], out[at+1] = byte(v>>8), byte(v) }
+	put16(p, n+2)
+	put16(3, (int(record[3])<<8|int(record[4]))+2)
+	hl := int(record[6])<<16 | int(record[7])<<8 | int(record[8])
+	hl += 2
+	out[6], out[7], out[8] = byte(hl>>16), byte(hl>>8), byte(hl)
+	return out
+}
+
 func helloOf(c ClientCfg, rep *runner.Report) []byte {
 	if !c.Resume {
 		return mrun.ClientHello(c.tls())
@@ -358,7 +387,7 @@ func main() {
 	runner.Main(&runner.Harness{
 		ID:          "C07",
 		Level:       "model_checking",
-		Rule:        "ClientHellos emitted by crypto/tls for the product of server names {none, a.test, 252 characters, punycode, upper case, sub-sub-domain} x ALPN lists {none,[h2],[h2,http/1.1],[255-byte id],[http/1.1]} x version ranges {1.0-1.3, 1.2, 1.3, 1.2-1.3, 1.0-1.1} x 3 cipher preference lists x 3 curve preference lists, each also as the hello of the same client reconnecting after a full handshake (non-empty session_ticket extension up to TLS 1.2, pre_shared_key + psk_key_exchange_modes in TLS 1.3); each compared field by field (server name, ALPN, versions, cipher suites, curves, signature schemes, point formats) with crypto/tls's own view of the same bytes and through 5 sni/alpn matcher configurations; single-byte mutations {00, FF, +1, -1} at every position of the hellos with default cipher/curve lists (all hellos in thorough), compared whenever crypto/tls still accepts them; proper prefixes (0..8, every 16th, last 8; all in thorough) must be undecided; all 255 other record types must be rejected",
+		Rule:        "ClientHellos emitted by crypto/tls for the product of server names {none, a.test, 252 characters, punycode, upper case, sub-sub-domain} x ALPN lists {none,[h2],[h2,http/1.1],[255-byte id],[http/1.1]} x version ranges {1.0-1.3, 1.2, 1.3, 1.2-1.3, 1.0-1.1} x 3 cipher preference lists x 3 curve preference lists, each also as the hello of the same client reconnecting after a full handshake (non-empty session_ticket extension up to TLS 1.2, pre_shared_key + psk_key_exchange_modes in TLS 1.3); each compared field by field (server name, ALPN, versions, cipher suites, curves, signature schemes, point formats) with crypto/tls's own view of the same bytes and through 5 sni/alpn matcher configurations; cipher-suite values other stacks send (renegotiation/fallback SCSV, GREASE, unknown) appended to the list with all lengths adjusted; single-byte mutations {00, FF, +1, -1} at every position of the hellos with default cipher/curve lists (all hellos in thorough), compared whenever crypto/tls still accepts them; proper prefixes (0..8, every 16th, last 8; all in thorough) must be undecided; all 255 other record types must be rejected",
 		Assumptions: []string{"resumption hellos come from one real handshake against crypto/tls's server with an Ed25519 certificate (TLS 1.2 ticket / TLS 1.3 PSK); their random parts differ from run to run, failures carry the exact record", "a ClientHello fragmented over several TLS records is not generated (crypto/tls clients never do)"},
 		Scenarios:   scenarios,
 		Run: func(tier string, scAny any, rep *runner.Report) {
@@ -389,6 +418,18 @@ func main() {
 			k := prefixesAndTypes(record, tier, fail(record))
 			rep.Executions += int64(k)
 			rep.States += int64(k)
+			// cipher-suite values other stacks send, appended to the list
+			if tier == "thorough" || sc.Cfg.Curves == 0 {
+				for _, cs := range []uint16{0x00ff, 0x5600, 0x0a0a, 0xfafa, 0x1301, 0xc0ff} {
+					if m := withCipher(record, cs); m != nil {
+						if judge(m, fmt.Sprintf("cipher suite %#04x appended to the hello", cs), fail(m)) {
+							rep.Nontrivial++
+						}
+						rep.Executions += int64(len(matchers)) + 1
+						rep.States++
+					}
+				}
+			}
 			// mutations: a subset of configurations in quick, all in thorough
 			if tier == "thorough" || (sc.Cfg.Ciphers == 0 && sc.Cfg.Curves == 0) {
 				for i := 0; i < len(record); i++ {
